@@ -1,5 +1,6 @@
 """C19 — Automation output stays in range and MIDI-learn requests are served in order."""
 import ctypes
+import itertools
 import math
 import os
 import re
@@ -17,7 +18,9 @@ THEOREMS = ["Rtosc.Auto.emit_in_range_right_type", "Rtosc.Auto.emit_monotone",
             "Rtosc.Auto.default_gain_linear", "Rtosc.Auto.learn_queue_refines",
             "Rtosc.Auto.unbound_controller_serves_head", "Rtosc.Auto.learn_order_preserved",
             "Rtosc.Auto.bound_cc_drives_its_slot", "Rtosc.Auto.ieee_model_laws"]
-HARNESS = {"src": ["auto.cpp"], "exclude": ["src/cpp/automations.cpp"], "deps": ["common.h"]}
+# the library is linked as it is; its calls of libm's expf/exp are wrapped at link time so that the
+# argument of the exponential of a log-scale parameter is observable whichever spelling the code uses
+HARNESS = {"src": ["auto.cpp"], "deps": ["common.h"], "libs": ["-Wl,--wrap=expf", "-Wl,--wrap=exp"]}
 STATELESS = True          # one op line = one whole history, lines are independent
 RULE = ("one op line = one whole history over a fresh AutomationMgr (2..6 slots x 1..3 sub-automations, 1..40 "
         "operations: createBinding with/without learn, setSlotSubPath, clearSlot, clearSlotSub, "
@@ -91,28 +94,103 @@ def logf(x):
 # generator
 # ---------------------------------------------------------------------------------------
 INT_RANGES = [("0", "127"), ("0", "1"), ("-64", "63"), ("1", "100"), ("0", "16383"), ("-5", "5"), ("3", "3"),
-              ("0", "255"), ("-100", "0")]
+              ("0", "255"), ("-100", "0"), ("0", "1E2"), ("-1e2", "1e+2")]
 LIN_RANGES = [("-1", "10"), ("0", "1"), ("0", "100"), ("0", "100.2"), ("-0.5", "0.5"), ("20", "20000"),
-              ("0.1", "0.7"), ("-40", "0"), ("1", "1"), ("0", "127")]
+              ("0.1", "0.7"), ("-40", "0"), ("1", "1"), ("0", "127"), ("1e-3", "0.5"), ("20", "2e4"),
+              ("-2.5E-1", ".75")]
 LOG_RANGES = [("1", "1000", None), ("20", "20000", None), ("0.01", "10", None), ("0", "1000", "1"),
-              ("0", "100", "0.001"), ("0.5", "2", None), ("1", "8000000", None), ("5", "5", None)]
+              ("0", "100", "0.001"), ("0.5", "2", None), ("1", "8000000", None), ("5", "5", None),
+              ("1e-3", "10", None), ("0", "1e3", "1E-2")]
+# integer parameters with a logarithmic scale (rLog / rLogWithLogmin on an integer port)
+INTLOG_RANGES = [("1", "1000", None), ("1", "127", None), ("20", "20000", None), ("0", "1000", "1"),
+                 ("2", "2", None), ("1", "16383", None), ("0", "127", "1"), ("1", "1e3", None), ("3", "40", None)]
 CCS = [1, 7, 10, 12, 74, 0, 127, 5, 37, 100]
 NRPN_TYPES = [99, 98, 6, 38]
+PLAIN_CCS = [c for c in range(128) if c not in NRPN_TYPES]      # every controller number that is not (N)RPN
+NAME_CHARS = "abcdefghijklmnopqrstuvwxyzABCDEFGHIJKLMNOPQRSTUVWXYZ0123456789_"
+MAX_ADDR = 120        # param_path holds 127 characters; the generated addresses stay below
 
 
-def port_token(rng):
+def respell(rng, lit):
+    """another spelling atof reads as the same number: +5, 5., .5, 1e3, 2E-2, 1002e-1 …"""
+    if lit is None or rng.random() < 0.65:
+        return lit
+    neg = lit.startswith("-")
+    body = lit.lstrip("+-")
+    if "e" in body.lower():
+        return lit
+    ip, _, fp = body.partition(".")
+    forms = []
+    if not neg:
+        forms.append("+" + body)
+    if not fp:
+        forms.append(body + ".")
+        forms.append(body + ".0")
+        z = len(ip) - len(ip.rstrip("0"))
+        if z and ip.strip("0"):
+            forms.append(ip[:-z] + rng.choice(["e", "E", "e+", "E+0"]) + str(z))
+        forms.append(ip + "0" + rng.choice(["e-1", "E-01"]))
+    else:
+        if ip == "0":
+            forms.append("." + fp)
+        digits = (ip + fp).lstrip("0") or "0"
+        forms.append(digits + rng.choice(["e-", "E-"]) + str(len(fp)))
+        forms.append(ip + "." + fp + "0")
+    f = rng.choice(forms)
+    return "-" + f.lstrip("+") if neg else f
+
+
+def rand_name(rng, n):
+    return "".join(rng.choice(NAME_CHARS) for _ in range(n))
+
+
+def rand_path(rng, k, dirs):
+    """address of port k: None (the default /p<letter>) or /<leaf> or /<dir>/<leaf>, 4..120 characters, the
+    lengths drawn around the sizes that matter (message buffers of 64/128/256 bytes, 4-byte padding)"""
+    if rng.random() < 0.45:
+        return None
+    total = rng.choice([rng.randint(4, 20), rng.randint(21, 60), rng.randint(48, 70), rng.randint(61, MAX_ADDR),
+                        rng.randint(100, MAX_ADDR), MAX_ADDR, MAX_ADDR - 1, 51, 52, 53, 59, 60, 61])
+    stem = "p" + chr(ord("a") + k)
+    if rng.random() < 0.55 and total >= 8:
+        if dirs and rng.random() < 0.5:
+            d = rng.choice(dirs)
+        else:
+            dl = rng.randint(2, max(2, min(total - 5, 60)))
+            d = "d" + chr(ord("a") + len(dirs)) + rand_name(rng, dl - 2)
+            dirs.append(d)
+        leaf_len = max(2, total - len(d) - 2)
+        return "/" + d + "/" + stem + rand_name(rng, leaf_len - 2)
+    return "/" + stem + rand_name(rng, total - 3)
+
+
+def port_token(rng, k=0, dirs=None):
+    tok, kind = port_fields(rng)
+    path = rand_path(rng, k, dirs if dirs is not None else [])
+    if path is not None:
+        tok += ":" + path
+    return tok, kind
+
+
+def log_fields(rng, table):
+    mn, mx, lm = rng.choice(table)
+    lo = f32(float(lm if lm is not None else mn))
+    hi = f32(float(mx))
+    return respell(rng, mn), respell(rng, mx), respell(rng, lm) or "-", bits(logf(lo)), bits(logf(hi))
+
+
+def port_fields(rng):
     r = rng.random()
-    if r < 0.28:
+    if r < 0.22:
         mn, mx = rng.choice(INT_RANGES)
-        return "P:i:%s:%s:%s:-:-:-:-" % (mn, mx, rng.choice(["lin", "-"])), "i"
-    if r < 0.52:
+        return "P:i:%s:%s:%s:-:-:-:-" % (respell(rng, mn), respell(rng, mx), rng.choice(["lin", "-"])), "i"
+    if r < 0.32:
+        return "P:i:%s:%s:log:%s:-:%s:%s" % log_fields(rng, INTLOG_RANGES), "ilog"
+    if r < 0.54:
         mn, mx = rng.choice(LIN_RANGES)
-        return "P:f:%s:%s:%s:-:-:-:-" % (mn, mx, rng.choice(["lin", "lin", "-"])), "f"
-    if r < 0.72:
-        mn, mx, lm = rng.choice(LOG_RANGES)
-        lo = f32(float(lm if lm is not None else mn))
-        hi = f32(float(mx))
-        return "P:f:%s:%s:log:%s:-:%s:%s" % (mn, mx, lm or "-", bits(logf(lo)), bits(logf(hi))), "log"
+        return "P:f:%s:%s:%s:-:-:-:-" % (respell(rng, mn), respell(rng, mx), rng.choice(["lin", "lin", "-"])), "f"
+    if r < 0.73:
+        return "P:f:%s:%s:log:%s:-:%s:%s" % log_fields(rng, LOG_RANGES), "log"
     if r < 0.88:
         if rng.random() < 0.3:
             return "P:T:0:1:-:-:-:-:-", "T"
@@ -162,7 +240,8 @@ def rand_offset(rng):
 def generate(rng, tier, stats):
     n = 12000 if tier == "quick" else 200000
     stats.update({"ops": {}, "ports": {}, "len_hist": {}, "slots_hist": {}, "oob_index_ops": 0,
-                  "nrpn_sequences": 0, "histories_with_clear_while_waiting": 0})
+                  "nrpn_sequences": 0, "histories_with_clear_while_waiting": 0, "address_len_hist": {},
+                  "nested_addresses": 0, "respelled_literals": 0, "cc_numbers": set()})
 
     def cnt(d, k):
         stats[d][k] = stats[d].get(k, 0) + 1
@@ -172,10 +251,17 @@ def generate(rng, tier, stats):
         per = rng.randint(1, 3)
         nports = rng.randint(2, 6)
         toks = ["N:%d:%d" % (nslots, per)]
-        for _ in range(nports):
-            t, kind = port_token(rng)
+        dirs = []
+        for pk in range(nports):
+            t, kind = port_token(rng, pk, dirs)
             toks.append(t)
             cnt("ports", kind)
+            f = t.split(":")
+            alen = len(f[9]) if len(f) > 9 else 3
+            cnt("address_len_hist", str((alen + 9) // 10 * 10))
+            if len(f) > 9 and f[9].count("/") == 2:
+                stats["nested_addresses"] += 1
+            stats["respelled_literals"] += sum(1 for x in (f[2], f[3], f[5]) if re.search(r"[eE+]|^\.|\.$|\.\d*0$", x))
         length = rng.randint(1, 40)
         cnt("len_hist", str((length + 9) // 10 * 10))
         cnt("slots_hist", "%dx%d" % (nslots, per))
@@ -233,13 +319,18 @@ def generate(rng, tier, stats):
                     if used_ccs and rng.random() < 0.55:
                         c, t = rng.choice(used_ccs)
                     else:
-                        c, t = (0 if rng.random() < 0.7 else rng.randint(0, 15)), rng.choice(CCS)
+                        c = 0 if rng.random() < 0.7 else rng.randint(0, 15)
+                        t = rng.choice(CCS) if rng.random() < 0.5 else rng.choice(PLAIN_CCS)
                         used_ccs.append((c, t))
+                    stats["cc_numbers"].add(t)
                     toks.append("M:%d:%d:%d" % (c, t, rng.choice([0, 127, 64, rng.randint(0, 127)])))
                     cnt("ops", "midi_cc")
                 elif q < 0.85:
                     # a complete NRPN sequence (possibly with a CC in between)
-                    hi, lo = rng.choice([(0, 1), (1, 0), (2, 5), (127, 127), (0, 0)])
+                    if rng.random() < 0.5:
+                        hi, lo = rng.choice([(0, 1), (1, 0), (2, 5), (127, 127), (0, 0)])
+                    else:
+                        hi, lo = rng.randint(0, 127), rng.randint(0, 127)
                     seq = [(99, hi), (98, lo), (6, rng.randint(0, 127)), (38, rng.randint(0, 127))]
                     if rng.random() < 0.3:
                         rng.shuffle(seq)
@@ -249,7 +340,7 @@ def generate(rng, tier, stats):
                         toks.append("M:%d:%d:%d" % (rng.randint(0, 2), t, v))
                         k += 1
                         if rng.random() < 0.1:
-                            toks.append("M:0:%d:%d" % (rng.choice(CCS), rng.randint(0, 127)))
+                            toks.append("M:0:%d:%d" % (rng.choice(PLAIN_CCS), rng.randint(0, 127)))
                             k += 1
                     stats["nrpn_sequences"] += 1
                     cnt("ops", "midi_nrpn_seq")
@@ -260,6 +351,7 @@ def generate(rng, tier, stats):
         if clear_while_waiting:
             stats["histories_with_clear_while_waiting"] += 1
         yield " ".join(toks)
+    stats["cc_numbers"] = len(stats["cc_numbers"])
 
 
 def nontrivial(op):
@@ -289,7 +381,7 @@ class Port:
     def __init__(self, tok, idx):
         f = tok.split(":")
         self.kind = f[1]
-        self.path = "/p" + chr(ord("a") + idx)
+        self.path = f[9] if len(f) > 9 else "/p" + chr(ord("a") + idx)
         self.addr = self.path.encode().hex()
         self.has_bounds = f[2] != "-" and f[3] != "-"
         self.usable = f[6] == "-" and (self.kind == "T" or self.has_bounds)
@@ -310,26 +402,45 @@ class Sub:
         self.samples = []     # (slot value, emitted value) since the last change of this automation
 
 
+def pad4(n):
+    return (n + 3) // 4 * 4
+
+
 def parse_msgs(seg):
+    """message = <address hex>,<type string>[,<first argument>][,x=<bits>],#<size>"""
     out = []
     for m in seg.split():
         f = m.split(",")
         if len(f) < 2:
             return None
-        d = {"addr": f[0], "type": f[1], "val": None}
-        if f[1] == "i" and len(f) >= 3:
-            d["val"] = int(f[2])
-        elif f[1] == "f" and len(f) >= 3:
-            d["val"] = unbits(f[2])
+        d = {"addr": f[0], "type": f[1], "val": None, "size": None}
+        rest = f[2:]
+        if rest and rest[-1].startswith("#"):
+            d["size"] = int(rest.pop()[1:])
+        rest = [x for x in rest if not x.startswith("x=")]
+        try:
+            if f[1][:1] == "i" and rest:
+                d["val"] = int(rest[0])
+            elif f[1][:1] == "f" and rest:
+                d["val"] = unbits(rest[0])
+        except ValueError:
+            return None
         out.append(d)
     return out
 
 
-def check_value(port, sub, t, msg, where, track=True):
+def check_value(port, sub, t, msg, where, track=True, dry=False):
     """range, type, address; linear map at default gain/offset; monotonicity within an epoch"""
     if msg["addr"] != port.addr:
-        return "%s: message goes to address %s, bound parameter is %s" % (where, bytes.fromhex(msg["addr"]), port.path)
+        got = bytes.fromhex(msg["addr"]) if msg["addr"] != "-" else b""
+        return "%s: message goes to address %s, bound parameter is %s" % (where, got, port.path)
     k = port.kind
+    # the message is the address plus exactly one value of the parameter's type: the type string is one tag
+    if msg["size"] is not None:
+        want = pad4(len(port.path) + 1) + 4 + (0 if k == "T" else 4)
+        if len(msg["type"]) == 1 and msg["size"] != want:
+            return "%s: message of %d bytes, an address of %d characters with one '%s' argument takes %d" % (
+                where, msg["size"], len(port.path), msg["type"], want)
     if k == "T":
         if msg["type"] not in ("T", "F"):
             return "%s: toggle parameter received type '%s'" % (where, msg["type"])
@@ -338,8 +449,9 @@ def check_value(port, sub, t, msg, where, track=True):
         if msg["type"] != "i":
             return "%s: integer parameter received type '%s'" % (where, msg["type"])
         ev = msg["val"]
-        if not (port.mn <= ev <= port.mx):
-            return "%s: value %d outside [%g,%g]" % (where, ev, port.mn, port.mx)
+        lo = port.lo if port.log else port.mn
+        if not (port.mn <= ev <= port.mx) or not (lo <= ev):
+            return "%s: value %d outside [%g,%g]" % (where, ev, max(lo, port.mn), port.mx)
     else:
         if msg["type"] != "f":
             return "%s: float parameter received type '%s'" % (where, msg["type"])
@@ -362,7 +474,8 @@ def check_value(port, sub, t, msg, where, track=True):
         elif port.log:
             if port.lo > 0 and port.mx > 0:
                 ex = math.exp(math.log(port.lo) + t * (math.log(port.mx) - math.log(port.lo)))
-                if abs(ev - ex) > 2 * REL * abs(ex):
+                # an integer parameter gets the nearest integer
+                if abs(ev - ex) > 2 * REL * abs(ex) + (0.5 if k == "i" else 0.0):
                     return "%s: log-scale value %r, expected %r at slot value %r" % (where, ev, ex, t)
         else:
             ex = Fraction(port.mn) + Fraction(t) * (Fraction(port.mx) - Fraction(port.mn))
@@ -379,19 +492,20 @@ def check_value(port, sub, t, msg, where, track=True):
                 if integral and t in (0.0, 1.0) and Fraction(ev) != ex:
                     return "%s: value %r, expected exactly %r at slot value %r" % (where, ev, float(ex), t)
     # --- monotone in the slot value for positive gain ---------------------------------------
-    if track:
+    if track or dry:
         if sub.gain > 0 and port.mn <= port.mx:
             for (t0, e0) in sub.samples:
                 if t0 == t:
                     continue
                 lo_t, lo_e, hi_t, hi_e = (t0, e0, t, ev) if t0 < t else (t, ev, t0, e0)
-                slack = REL * abs(hi_e) if port.log else 0.0
+                slack = REL * abs(hi_e) if (port.log and k == "f") else 0.0
                 if lo_e > hi_e + slack:
                     return "%s: not monotone: slot values %r < %r give %r > %r (gain %g)" % (
                         where, lo_t, hi_t, lo_e, hi_e, sub.gain)
-        sub.samples.append((t, ev))
-        if len(sub.samples) > 12:
-            sub.samples.pop(0)
+        if not dry:
+            sub.samples.append((t, ev))
+            if len(sub.samples) > 12:
+                sub.samples.pop(0)
     return None
 
 
@@ -529,10 +643,26 @@ def oracle(op, out):
             return "%s: %d message(s) emitted %s, the bound automations are %s" % (
                 where, len(msgs), [bytes.fromhex(m["addr"]).decode("latin1") + ":" + m["type"] for m in msgs],
                 [(a, b, subs[a][b].port.path) for a, b, _ in expect])
-        for m, (a, b, x) in zip(msgs, expect):
-            r = check_value(subs[a][b].port, subs[a][b], x, m, where + " slot %d sub %d" % (a, b))
-            if r:
-                return r
+        # the statement fixes no order among the messages of one slot's sub-automations: accept any
+        # assignment of the emitted messages to the bound automations (the order of emission first)
+        first = None
+        for perm in itertools.permutations(range(len(expect))):
+            bad = None
+            for m, pi in zip(msgs, perm):
+                a, b, x = expect[pi]
+                bad = check_value(subs[a][b].port, subs[a][b], x, m, where + " slot %d sub %d" % (a, b), dry=True)
+                if bad:
+                    break
+            if bad is None:
+                for m, pi in zip(msgs, perm):
+                    a, b, x = expect[pi]
+                    check_value(subs[a][b].port, subs[a][b], x, m, where)
+                break
+            if first is None:
+                first = bad
+        else:
+            if first is not None:
+                return first
         # ---- bookkeeping observables --------------------------------------------------------
         for s in range(nslots):
             exp_learn = queue.index(s) + 1 if s in queue else -1
@@ -545,29 +675,106 @@ def oracle(op, out):
 
 
 # ---------------------------------------------------------------------------------------
-# entry point: the implementation prints the value of a log-scale parameter (result of
-# expf) next to the argument of expf.  The model predicts the argument bit-exactly but
-# does not compute expf, so the value is masked before the line-by-line comparison and
-# kept aside for the oracle, which checks it against the property's tolerance.
+# entry point.  The model/implementation comparison is done on a canonical form of both
+# outputs that drops what the property does not fix:
+#  * the value of a log-scale parameter is the result of libm's exponential.  The model predicts
+#    the ARGUMENT of the exponential bit-exactly but does not compute the exponential, so the
+#    value is masked (`~`) and checked by the oracle against the property's tolerance.  When the
+#    harness could not observe the argument (the code no longer calls expf/exp), the emitted value
+#    is compared with exp(model's argument) within that tolerance instead;
+#  * what a slot emits at the moment it learns a controller (the oracle calls it optional) is
+#    replaced by `*`;
+#  * the messages of one operation are compared as a sorted multiset.
+# The oracle always sees the unmasked implementation output (_RAW).
 # ---------------------------------------------------------------------------------------
-_MASK = re.compile(r",f,[0-9a-f]{8},x=")
+_MASK = re.compile(r",([fi]),[-0-9a-f]+,x=")
+_MODEL_X = re.compile(r"^([0-9a-f-]+),([fi]),~,x=([0-9a-f]{8}),(#\d+)$")
+_STATS = {"learn_time_emissions_masked": 0, "log_values_compared_by_tolerance": 0}
+
+
+def canon(op, out, count=False):
+    if ";" not in out:
+        return out
+    toks = [t for t in op.split() if t[0] not in "NP"]
+    segs = out.split("|")
+    if len(segs) != len(toks):
+        return out
+    res = []
+    prev = None
+    for tok, seg in zip(toks, segs):
+        if ";" not in seg:
+            return out
+        mtxt, stxt = seg.split(";", 1)
+        cur = [x.split(",")[1:] for x in stxt.split("/")]
+        if tok[0] == "M" and mtxt:
+            before = prev if prev is not None else [["-1", "-1"]] * len(cur)
+            if cur != before:                # a slot learned this controller
+                mtxt = "*"
+                if count:
+                    _STATS["learn_time_emissions_masked"] += 1
+        prev = cur
+        msgs = sorted(_MASK.sub(r",\1,~,x=", m) for m in mtxt.split())
+        res.append(" ".join(msgs) + ";" + stxt)
+    return "|".join(res)
+
+
+def reconcile(impl, model):
+    """impl line in which every log-scale value the harness printed without `x=` and that equals
+    exp(<the model's argument>) within the property's tolerance is rewritten as the model prints it"""
+    si, sm = impl.split("|"), model.split("|")
+    if len(si) != len(sm):
+        return impl
+    out = []
+    for a, b in zip(si, sm):
+        if ";" not in a or ";" not in b:
+            return impl
+        ma, sa = a.split(";", 1)
+        mb, _ = b.split(";", 1)
+        la, lb = ma.split(), mb.split()
+        if len(la) == len(lb):
+            for k, (x, y) in enumerate(zip(la, lb)):
+                g = _MODEL_X.match(y)
+                f = x.split(",")
+                if g and len(f) == 4 and f[0] == g.group(1) and f[1] == g.group(2) and f[3] == g.group(4):
+                    try:
+                        ex = math.exp(unbits(g.group(3)))
+                        v = unbits(f[2]) if f[1] == "f" else int(f[2])
+                    except (ValueError, OverflowError, struct.error):
+                        continue
+                    if abs(v - ex) <= REL * abs(ex) + (0.5 if f[1] == "i" else 0.0):
+                        la[k] = y
+                        _STATS["log_values_compared_by_tolerance"] += 1
+        out.append(" ".join(la) + ";" + sa)
+    return "|".join(out)
 
 
 def main(argv):
-    orig = vlib.run_harness
+    orig_h, orig_d = vlib.run_harness, vlib.run_driver
+    last = {}
 
-    def run_harness_masked(exe, ops, workdir, tag, extra_args=()):
-        raw = orig(exe, ops, workdir, tag, extra_args)
+    def run_harness_canon(exe, ops, workdir, tag, extra_args=()):
+        raw = orig_h(exe, ops, workdir, tag, extra_args)
         out = []
         for op, r in zip(ops, raw):
-            m = _MASK.sub(",f,~,x=", r)
+            m = canon(op, r, count=True)
             if m != r:
                 _RAW[op] = r
             out.append(m)
+        last["ops"], last["raw"], last["out"] = ops, raw, out
         return out
 
-    vlib.run_harness = run_harness_masked
+    def run_driver_canon(engine, ops, workdir, tag, nproc=1):
+        raw = orig_d(engine, ops, workdir, tag, nproc)
+        out = [canon(op, r) for op, r in zip(ops, raw)]
+        if last.get("ops") is ops or last.get("ops") == ops:
+            impl = last["out"]          # the very list the runner compares with: patched in place
+            for k, (op, r) in enumerate(zip(ops, raw)):
+                if impl[k] != out[k] and ",~,x=" in r:
+                    impl[k] = canon(op, reconcile(last["raw"][k], r))
+        return out
+
+    vlib.run_harness, vlib.run_driver = run_harness_canon, run_driver_canon
     try:
         return vlib.main(sys.modules[__name__], argv)
     finally:
-        vlib.run_harness = orig
+        vlib.run_harness, vlib.run_driver = orig_h, orig_d
